@@ -22,14 +22,19 @@ let string_of_pc = function
   | PAccClose c -> Printf.sprintf "accept:close-due %d" (int_of_nat c)
   | PAccNoAlloc -> "accept:noalloc" | PWakeReg c -> Printf.sprintf "wake:registered %d" (int_of_nat c)
   | PWake -> "on_wake (queue mutex held)" | PWakeCb -> "on_wake:cb_wake-due"
+  | PWakeClr -> "handle_wakeup:signal cleared, on_wake due"
   | PRel (c, _) -> Printf.sprintf "release_ctx %d" (int_of_nat c)
   | PRelClose (c, _) -> Printf.sprintf "release_ctx %d:close-due" (int_of_nat c)
   | PRelFree (c, _) -> Printf.sprintf "release_ctx %d:free-due" (int_of_nat c)
   | PFin -> "drained" | PDone -> "returned"
 
 (* ---------------------------------------------------------------- sockets *)
-let accept_sock (trace : string list) : unit =
-  let st = ref init and ok = ref true in
+let accept_sock (cbs : string) (trace : string list) : unit =
+  (* which optional callbacks the case installs: the model's configuration; a log line of a callback that is
+     not installed is rejected, and the point where a missing callback would have run is a silent step *)
+  let has ch = String.contains cbs ch in
+  let st = ref (initf { f_conn = has 'c'; f_msg = has 'm'; f_close = has 'l'; f_release = has 'r';
+                        f_addctx = has 'a'; f_wake = has 'w' }) and ok = ref true in
   let reject l why =
     Printf.printf "REJECT %s :: %s (loop thread at %s)\n" l why (string_of_pc !st.pc); ok := false in
   (* try an event, expecting result [want] when given *)
@@ -40,11 +45,15 @@ let accept_sock (trace : string list) : unit =
        | Some w when int_of_z r <> w -> false
        | _ -> st := s'; true)
     | None -> false in
-  let tau () : bool = try_ev ETauRel None || try_ev ETauBreak None in
-  let fire l (e : ev) (want : int option) =
+  (* without cb_wake the end of on_wake (unlock, return) leaves no line *)
+  let wake_end () : bool =
+    (not (has 'w')) && (try_ev ETauWakeBegin None || try_ev ETauWakeUnlock None || try_ev EWake None) in
+  let tau () : bool = try_ev ETauRel None || wake_end () || try_ev ETauBreak None in
+  let fire ?(pre = []) l (e : ev) (want : int option) =
     let budget = ref 100000 in
     let rec go () =
       if try_ev e want then print_endline l
+      else if !budget > 0 && List.exists (fun p -> try_ev p None) pre then (decr budget; go ())
       else if !budget > 0 && tau () then (decr budget; go ())
       else
         let why = match step !st e, want with
@@ -59,10 +68,34 @@ let accept_sock (trace : string list) : unit =
      seen to register it (its "reg" line comes before the "wake" line that ends this on_wake). *)
   let pending : (int, unit) Hashtbl.t = Hashtbl.create 8 in
   let tr = Array.of_list trace in
-  let enqueue l (c : int) : bool =
+  (* the loop thread has finished (or is finishing, mutex held) on_exit: a hand-over that completes now was
+     enqueued after the drain; it stays pending: either on_exit is seen to release it after all, or the
+     driver takes it back ("late c") *)
+  let drained () = (match !st.pc with PFin | PDone -> true | _ -> false) in
+  let late : (int, unit) Hashtbl.t = Hashtbl.create 8 in
+  (* is context c registered by the on_wake whose end is the next "wake" line after line i ? *)
+  let reg_before_wake (i : int) (c : int) : bool =
+    let found = ref false and j = ref (i + 1) and stop = ref false in
+    while not !found && not !stop && !j < Array.length tr do
+      (match words tr.(!j) with
+       | ["wake"] | ["sigr"] | ["idle"] -> stop := true
+       | ["reg"; d; _] when int_of_string_opt d = Some c -> found := true
+       | _ -> ());
+      incr j
+    done;
+    !found in
+  let wake_begin_ref : (string -> int -> bool) ref = ref (fun _ _ -> false) in
+  let rec enqueue ?(at = -1) l (c : int) : bool =
+    (* the signal is cleared and on_wake is due: an enqueue seen now happened before on_wake took the mutex iff this
+       on_wake registers the context; otherwise on_wake has (silently) locked, drained and unlocked already *)
+    (match !st.pc with
+     | PWakeClr when at >= 0 && not (reg_before_wake at c) ->
+       if !wake_begin_ref l at then ignore (try_ev ETauWakeUnlock None)
+     | _ -> ());
     let rec go budget =
       if try_ev (EHand (nat c)) None then (Hashtbl.remove pending c; true)
       else if budget > 0 && (try_ev ETauRel None || try_ev ETauWakeUnlock None) then go (budget - 1)
+      else if drained () then true          (* deferred: still pending *)
       else (reject l (Printf.sprintf "hand-over of context %d cannot have happened here" c); false) in
     go 1000 in
   (* the wake-up is dispatched: everything on_wake is going to register was enqueued before *)
@@ -70,34 +103,51 @@ let accept_sock (trace : string list) : unit =
     let good = ref true and j = ref i and stop = ref false in
     while !good && not !stop && !j < Array.length tr do
       (match words tr.(!j) with
-       | ["wake"] -> stop := true
+       | ["wake"] | ["sigr"] | ["idle"] -> stop := true
        | ["reg"; c; _] when Hashtbl.mem pending (int_of_string c) -> good := enqueue l (int_of_string c)
        | _ -> ());
       incr j
     done;
     !good && (try_ev ETauWakeBegin None || (reject l "wake-up handling cannot start here"; false)) in
-  let idle () = (match !st.pc with PIdle -> true | _ -> false) in
+  wake_begin_ref := wake_begin;
+  (* on_wake is entered from *_handle_wakeup AFTER muggle_ev_signal_clearup: its "sigr" line comes first *)
+  let cleared () = (match !st.pc with PWakeClr -> true | _ -> false) in
+  let at_idle () = (match !st.pc with PIdle -> true | _ -> false) in
+  let no_clear l =
+    reject l "on_wake runs although the event signal has not been cleared first (no clear-up between the back-end's report and the wake callback)" in
+  (* events of the loop thread between two dispatches: only a pending silent release may precede them *)
+  let fire_idle l (e : ev) (why : string) =
+    let rec go budget =
+      if try_ev e None then print_endline l
+      else if budget > 0 && (try_ev ETauRel None || wake_end ()) then go (budget - 1)
+      else reject l why in
+    go 1000 in
   Array.iteri (fun i l ->
     if !ok then begin
+      let cb_of = [("wake", 'w'); ("msg", 'm'); ("conn", 'c'); ("close", 'l'); ("release", 'r'); ("addctx", 'a')] in
       match words l with
+      | w :: _ when List.mem_assoc w cb_of && not (has (List.assoc w cb_of)) ->
+        reject l (Printf.sprintf "callback line '%s' although that callback is not installed in this configuration" w)
       | ["hand"; c] -> Hashtbl.replace pending (int_of_string c) (); print_endline l
       | ["handed"; c] ->
         let c = int_of_string c in
-        if not (Hashtbl.mem pending c) || enqueue l c then print_endline l
+        if not (Hashtbl.mem pending c) || enqueue ~at:i l c then print_endline l
       | ["reg"; c; r] when int_of_string c >= 0 ->
         let e = EReg (nat (int_of_string c), int_of_string r = 0) in
         let rec go budget =
           if try_ev e None then print_endline l
-          else if budget > 0 && idle () then (if wake_begin l i then go (budget - 1))
+          else if budget > 0 && cleared () then (if wake_begin l i then go (budget - 1))
           else if budget > 0 && try_ev ETauRel None then go (budget - 1)
+          else if at_idle () && (Hashtbl.mem pending (int_of_string c) || List.mem (nat (int_of_string c)) !st.queue) then no_clear l
           else reject l "registration not enabled in the model (not the head of the hand-over queue / not in the accept path)" in
         go 1000
       | ["wake"] ->
         let rec go budget =
           if try_ev EWake None then print_endline l
-          else if budget > 0 && idle () then (if wake_begin l i then go (budget - 1))
+          else if budget > 0 && cleared () then (if wake_begin l i then go (budget - 1))
           else if budget > 0 && try_ev ETauRel None then go (budget - 1)
           else if budget > 0 && try_ev ETauWakeUnlock None then go (budget - 1)
+          else if at_idle () then no_clear l
           else
             (match !st.pc, !st.queue with
              | PWake, c :: _ ->
@@ -105,6 +155,30 @@ let accept_sock (trace : string list) : unit =
                            (int_of_nat c) (List.length !st.queue))
              | _ -> reject l "cb_wake not enabled in the model") in
         go 1000
+      | ["sigw"; "x"] -> (match step !st ESigw with Some (s', _) -> st := s'; print_endline l | None -> reject l "signal write not enabled")
+      | ["sigw"; c] ->
+        (* the wake-up of hand-over c: its enqueue is done *)
+        let c = int_of_string c in
+        if not (Hashtbl.mem pending c) || enqueue ~at:i l c then begin
+          if Hashtbl.mem pending c then print_endline l          (* deferred (after the drain): nobody is woken *)
+          else if try_ev (ESigHand (nat c)) None then print_endline l
+          else reject l (Printf.sprintf "wake-up write of hand-over %d without a pending enqueue" c)
+        end
+      | ["sigr"] ->
+        fire_idle l ESigClear "the event signal is cleared outside *_handle_wakeup's place in the loop (the loop thread is not between two dispatches)"
+      | ["idle"] ->
+        if !st.wsig && at_idle () then
+          reject l "the loop thread blocks in its back-end although the event signal is set"
+        else fire_idle l ESleep "the loop thread blocks in its back-end at a point where the model's loop thread is not between two dispatches"
+      | ["late"; c] ->
+        let c = int_of_string c in
+        if Hashtbl.mem pending c && drained () then (Hashtbl.remove pending c; Hashtbl.replace late c (); print_endline l)
+        else reject l (Printf.sprintf "context %d is still in the hand-over queue after run() returned although it was enqueued before on_exit drained the queue" c)
+      | ["latefree"; c] when Hashtbl.mem late (int_of_string c) -> print_endline l
+      | ["fdclose"; c] when (match int_of_string_opt c with Some c -> Hashtbl.mem late c | None -> false) -> print_endline l
+      | "INCONCLUSIVE" :: _ -> print_endline l
+      | ("E" | "P" | "X") :: _ -> ()          (* scheduler events of a scheduled scenario: not part of the callback log *)
+      | ("DEADLOCK" | "LIVELOCK") :: _ -> print_endline l
       | ["release"; c] when Hashtbl.mem pending (int_of_string c) ->
         (* on_exit released it before the handing thread logged the return of add_ctx *)
         if enqueue l (int_of_string c) then fire l (ERelease (nat (int_of_string c))) None
@@ -113,7 +187,16 @@ let accept_sock (trace : string list) : unit =
         else if k = "L" then fire l (EHalloc (KListen, nat 0)) None
         else fire l (EHalloc (KConn, nat (int_of_string k))) None
       | ["reg"; _; _] -> reject l "registration of an unknown context"
-      | ["addctx"; c] -> fire l (EAddctx (nat (int_of_string c))) None
+      | ["addctx"; c] ->
+        if has 'a' then fire l (EAddctx (nat (int_of_string c))) None else reject l "cb_add_ctx invoked although it is not installed"
+      | ["addctx0"; c] ->
+        if has 'a' then reject l "registration of a handed-over context not followed by cb_add_ctx although it is installed"
+        else fire l (EAddctx (nat (int_of_string c))) None
+      | ["conn0"; c; k] ->
+        let k = int_of_string k in
+        if has 'c' then reject l "registration of an accepted context not followed by cb_conn although it is installed"
+        else fire l (EConn (nat (int_of_string c), nat (if k < 0 then 100000 else k))) None
+      | "badpool" :: _ -> reject l "cb_alloc / cb_free called with a pool argument that is not the handle's mempool"
       | ["accepted"] -> fire l EAccepted None
       | ["accepterr"; c] -> fire l (EAccepterr (nat (int_of_string c))) None
       | ["allocfail"] -> fire l EAllocfail None
@@ -123,7 +206,10 @@ let accept_sock (trace : string list) : unit =
         fire l (EConn (nat (int_of_string c), nat (if k < 0 then 100000 else k))) None
       | ["free"; c] -> fire l (EFree (nat (int_of_string c))) None
       | ["fdclose"; "new"] -> fire l EFdcloseNew None
-      | ["fdclose"; c] -> fire l (EFdclose (nat (int_of_string c))) None
+      | ["fdclose"; c] ->
+        let c = nat (int_of_string c) in
+        (* no cb_close / cb_release: their points are passed silently before the descriptor is closed *)
+        fire ~pre:((if has 'l' then [] else [EClose c]) @ (if has 'r' then [] else [ERelease c])) l (EFdclose c) None
       | ["msg"; c] -> fire l (EMsg (nat (int_of_string c))) None
       | ["rd"; c; "eof"] -> fire l (ERdEof (nat (int_of_string c))) None
       | ["rd"; c; "err"] -> fire l (ERdErr (nat (int_of_string c))) None
@@ -142,7 +228,9 @@ let accept_sock (trace : string list) : unit =
          | Some n when ci >= 0 ->
            reject l (Printf.sprintf "cb_close although %d byte(s) the peer sent are still readable and nobody shut the context down: the back-end closed on a hang-up without offering them to the read callback" n)
          | _ -> fire l (EClose (nat ci)) None)
-      | ["release"; c] -> fire l (ERelease (nat (int_of_string c))) None
+      | ["release"; c] ->
+        let c = nat (int_of_string c) in
+        fire ~pre:(if has 'l' then [] else [EClose c]) l (ERelease c) None
       | ["exitreq"] | ["xexit"] -> fire l EExitreq None
       | ["returned"] -> fire l EReturned None
       | ["wrel"; c; _; r] -> fire l (EWrel (nat (int_of_string c))) (Some (int_of_string r))
@@ -155,7 +243,7 @@ let accept_sock (trace : string list) : unit =
       | ["cclose"; k] -> fire l (EPclose (nat (int_of_string k))) None
       | ["creset"; k] -> fire l (EPreset (nat (int_of_string k))) None
       | ["halfclose"; c] -> fire l (EMsg (nat (int_of_string c))) None   (* a use of the context from a callback *)
-      | ("cconn" | "cfail" | "sendfail" | "await" | "stalled" | "unstall") :: _ -> print_endline l
+      | ("cconn" | "cfail" | "sendfail" | "await" | "stalled" | "unstall" | "quiet") :: _ -> print_endline l
       | "F" :: _ -> ()
       | [] -> ()
       | _ -> reject l "no model event for this line"
@@ -165,7 +253,7 @@ let accept_sock (trace : string list) : unit =
     List.iteri (fun i x ->
       if int_of_nat x.k_uar <> 0 then Printf.printf "MODELVIOLATION context %d used after release\n" i;
       if int_of_nat x.k_nfree > 1 then Printf.printf "MODELVIOLATION context %d freed twice\n" i) s.ctxs;
-    Printf.printf "F ctx alloc=%d freed=%d\n" (List.length s.ctxs) (int_of_nat (n_freed s));
+    Printf.printf "F ctx alloc=%d freed=%d late=%d\n" (List.length s.ctxs) (int_of_nat (n_freed s)) (Hashtbl.length late);
     print_endline "F heap_delta=0 fd_delta=0 badclose=0"
   end
 
@@ -187,7 +275,7 @@ let accept_pipe (writers : int) (per : int) (trace : string list) : unit =
   List.iter (fun l ->
     if !ok then begin
       match words l with
-      | ["W"; w; "again"] -> if doev l (PWAgain (nat (int_of_string w))) then print_endline l
+      | ["W"; w; ("again" | "intr")] -> if doev l (PWAgain (nat (int_of_string w))) then print_endline l
       | ["W"; _; "err"] -> reject l "write error on the pipe"
       | ["W"; w; h] ->
         let wi = int_of_string w and bs = bytes_of_hex h in
@@ -205,7 +293,7 @@ let accept_pipe (writers : int) (per : int) (trace : string list) : unit =
             if !st.p_rem = [] then ignore (doev l (PUnlock (nat wi)))
           end
         end
-      | ["R"; "again"] -> if doev l PRAgain then print_endline l
+      | ["R"; ("again" | "intr")] -> if doev l PRAgain then print_endline l
       | ["R"; ("eof" | "err")] -> reject l "pipe closed or failed under the reader"
       | ["R"; h] ->
         let bs = bytes_of_hex h in
@@ -256,6 +344,12 @@ let handle (lines : string list) : unit =
   match script with
   | h :: _ when String.length h >= 4 && String.sub h 0 4 = "pipe" ->
     accept_pipe (kvi h "writers" 1) (kvi h "per" 1) trace
-  | _ -> accept_sock trace
+  | h :: _ ->
+    let cbs = ref "cmlraw" in
+    List.iter (fun w ->
+      if String.length w >= 4 && String.sub w 0 4 = "cbs=" then
+        cbs := String.concat "" (String.split_on_char '-' (String.sub w 4 (String.length w - 4)))) (words h);
+    accept_sock !cbs trace
+  | [] -> accept_sock "cmlraw" trace
 
 let () = run_cases handle
